@@ -234,24 +234,54 @@ func (r *result) idleBounds(f *facts, e *endpoint, T, since, period time.Duratio
 		return r.bad("C17/idle/early", "%s gave up at %v, only %v after the last packet it received (at %v); the period is %v", e.name, T, T-lastRecv, lastRecv, period)
 	}
 	start := lastRecv
+	var later []time.Duration // send times of further ack-eliciting datagrams
 	for _, rec := range f.sentBy[e.name] {
 		if rec.T > lastRecv && rec.T < T && ackEliciting(rec) {
-			start = rec.T
-			break
+			if start == lastRecv {
+				start = rec.T
+			} else if rec.T > start {
+				later = append(later, rec.T)
+			}
 		}
 	}
 	ptoUp := 3*r.rtt + 50*ms
-	limit := start + max(period, 3*ptoUp) + timeoutSlack
+	span := max(period, 3*ptoUp)
+	limit := start + span + timeoutSlack
 	if handshake {
+		span = period
 		limit = start + period + timeoutSlack
 		if hl := since + 2*period + timeoutSlack; hl < limit {
 			limit = hl
 		}
 	}
 	if T > limit {
+		// Known root cause: shortHeaderPacket.IsAckEliciting ignores STREAM frames, so a PTO probe that carries only
+		// STREAM frames does not start the idle period; a later probe (one with a control frame) does.
+		for _, t := range later {
+			if T >= t+period && T <= t+span+timeoutSlack {
+				sig := "C17/idle/stream-only-probe-not-counted"
+				if tolerate(r.u, sig) {
+					return nil
+				}
+				return r.bad(sig, "%s gave up at %v; last packet received at %v, first ack-eliciting packet sent after it at %v, period %v: the deadline was %v, but the idle period was restarted by the ack-eliciting packet sent at %v", e.name, T, lastRecv, start, period, limit, t)
+			}
+		}
 		return r.bad("C17/idle/late", "%s gave up at %v; last packet received at %v, first ack-eliciting packet sent after it at %v, period %v: the deadline was %v at the latest", e.name, T, lastRecv, start, period, limit)
 	}
 	return nil
+}
+
+// tolerate reports whether a genuine, reported defect of the unchanged tree is to be skipped: it is an open known
+// finding (counted as such), or strict mode is off (counted as a class).
+func tolerate(u *vf.Unit, sig string) bool {
+	if u.KnownHit(sig) {
+		return true
+	}
+	if strict {
+		return false
+	}
+	u.Class("tolerated:" + sig)
+	return true
 }
 
 // explainEnd decides whether the way and the time endpoint e's connection ended is justified by what the script
@@ -365,7 +395,7 @@ func (r *result) explainEnd(f *facts, e *endpoint) *vf.Verdict {
 		if period != neg {
 			// genuine deviation from RFC 9000 10.1 (effective timeout = minimum of both advertised values): a remote
 			// value below 5 s is raised to 5 s. Tolerated unless VERIF_C17_STRICT=1.
-			if strict {
+			if !tolerate(r.u, "C17/idle/remote-floor-5s") {
 				period = neg
 			}
 		}
@@ -402,7 +432,7 @@ func (r *result) explainEnd(f *facts, e *endpoint) *vf.Verdict {
 
 	// nothing may end a connection before the scripted cause (keep-alives are answered, the network is healthy)
 	if c.Phase != "handshake" && c.Phase != "edge" && T < r.tCause {
-		if kind == "idle" && c.keepAliveOn() {
+		if kind == "idle" && c.aliveGuaranteed() {
 			return r.bad("C17/idle/despite-keepalive", "%s timed out at %v although keep-alives were configured and the network was healthy until %v", e.name, T, r.tCause)
 		}
 		return r.bad("C17/end/premature", "%s ended at %v (%v) before the cause was triggered at %v", e.name, T, e.endErr, r.tCause)
@@ -421,6 +451,7 @@ func ccTimes(cc []ccInfo) []time.Duration {
 // judge is the oracle.
 func judge(r *result, u *vf.Unit) *vf.Verdict {
 	c := &r.c
+	r.u = u
 	if r.harness != "" {
 		return r.bad("C17/harness/setup", "%s", r.harness)
 	}
@@ -504,8 +535,7 @@ func judge(r *result, u *vf.Unit) *vf.Verdict {
 				}
 				if cl.Name == "later:SendDatagram" && cl.Err == nil {
 					// genuine finding: datagramQueue.Add never looks at the closed flag while the queue has room
-					u.Class("tolerated:C17/later-call/send-datagram-succeeds")
-					if !strict {
+					if tolerate(u, "C17/later-call/send-datagram-succeeds") {
 						continue
 					}
 					return r.bad("C17/later-call/send-datagram-succeeds", "%s: SendDatagram on a connection that ended at %v with %v returned nil", e.name, e.endAt, cause)
